@@ -71,6 +71,9 @@ pub fn gen(rng: &mut Rng, tiny: bool) -> ECfg {
             if rng.chance(1, 8) {
                 sc.mw[m][1] = *rng.pick(&[V_DONE, V_BREAK, V_ERR]);
             }
+            if rng.chance(1, 6) {
+                sc.mw_insert[m] = true;
+            }
         }
         scripts.push(sc);
     }
@@ -124,6 +127,9 @@ pub fn describe(c: &ECfg) -> J {
 
 /// effects of `sc` that survive the before_effect hooks of `n_mw` middlewares (model used by the
 /// controller to know what to wait for; the oracle recomputes it from the hooks actually called)
+const INSERTED: EffSpec = EffSpec { kind: EK_TASK, follow_script: 0, n_follow: 0, panic: false, gate: NOGATE };
+
+/// (tag, spec): tag = reducer index for a reducer's effect, 0xE0 + m for one inserted by middleware m
 fn surviving(sc: &Script, n_red: u32, n_mw: u32) -> Vec<(u32, EffSpec)> {
     let mut l: Vec<(u32, EffSpec)> = (0..n_red.min(4)).filter_map(|r| sc.eff[r as usize].map(|e| (r, e))).collect();
     for m in 0..n_mw.min(3) as usize {
@@ -134,6 +140,9 @@ fn surviving(sc: &Script, n_red: u32, n_mw: u32) -> Vec<(u32, EffSpec)> {
             pos += 1;
             keep
         });
+        if sc.mw_insert[m] {
+            l.insert(0, (0xE0 + m as u32, INSERTED));
+        }
         if sc.mw[m][1] == V_BREAK {
             break;
         }
@@ -261,6 +270,14 @@ pub fn execute(c: &ECfg, seed: u64) -> W {
     w
 }
 
+fn run_key(tag: u32, e: &EffSpec) -> u32 {
+    if tag >= 0xE0 {
+        tag
+    } else {
+        (tag << 4) | e.kind as u32
+    }
+}
+
 pub fn c11(h: &Hist, s: u8, v: &mut Verdicts) {
     let sh = &h.st[s as usize];
     v.evaluated.insert("C11");
@@ -305,7 +322,7 @@ pub fn c11(h: &Hist, s: u8, v: &mut Verdicts) {
         if ar.reduces.iter().any(|r| r.end == INF) {
             continue;
         }
-        // model of the effect list
+        // model of the effect list (tag = reducer index, or 0xE0 + m for an effect a middleware inserted)
         let mut list: Vec<(u32, EffSpec)> = Vec::new();
         for r in &ar.reduces {
             if (r.ridx as usize) < 4 {
@@ -317,12 +334,12 @@ pub fn c11(h: &Hist, s: u8, v: &mut Verdicts) {
         let issued = list.len();
         let mut removed: Vec<(u32, EffSpec)> = Vec::new();
         let mut phase_end = ar.reduces.last().map(|r| r.end).unwrap_or(ar.first);
+        let sc_a = ar.reduces.first().map(|r| h.ctx.script(r.z));
         for m in ar.mws.iter().filter(|m| m.hook == 1) {
             if m.y != list.len() as u64 {
                 v.fail("C11", format!("store {}: before_effect of middleware {} saw {} effects for {} but {} were left by the reducers and earlier hooks", s, m.midx, m.y, id_str(*a), list.len()));
             }
-            let sc = h.ctx.script(ar.reduces.first().map(|r| r.z).unwrap_or(0));
-            if (m.midx as usize) < 3 {
+            if let (Some(sc), true) = (sc_a.as_ref(), (m.midx as usize) < 3) {
                 let mask = sc.mw_remove[m.midx as usize];
                 let mut pos = 0;
                 let mut kept = Vec::new();
@@ -335,6 +352,9 @@ pub fn c11(h: &Hist, s: u8, v: &mut Verdicts) {
                     pos += 1;
                 }
                 list = kept;
+                if sc.mw_insert[m.midx as usize] {
+                    list.insert(0, (0xE0 + m.midx, INSERTED));
+                }
             }
             if m.end != INF {
                 phase_end = phase_end.max(m.end);
@@ -348,7 +368,7 @@ pub fn c11(h: &Hist, s: u8, v: &mut Verdicts) {
         let submitted_before_stop = matches!(after, Some(x) if x < sr.inv);
         for (ridx, e) in &removed {
             if e.kind != EK_ACTION {
-                let n = runs.get(&(*a, (ridx << 4) | e.kind as u32)).map(|x| x.len()).unwrap_or(0);
+                let n = runs.get(&(*a, run_key(*ridx, e))).map(|x| x.len()).unwrap_or(0);
                 if n > 0 {
                     v.fail("C11", format!("store {}: effect {} of {} was removed by a before_effect hook but ran {} time(s)", s, ridx, id_str(*a), n));
                 }
@@ -359,7 +379,7 @@ pub fn c11(h: &Hist, s: u8, v: &mut Verdicts) {
         for (ridx, e) in &list {
             kinds_seen.insert(e.kind);
             if e.kind != EK_ACTION {
-                let n = runs.get(&(*a, (ridx << 4) | e.kind as u32)).map(|x| x.len()).unwrap_or(0);
+                let n = runs.get(&(*a, run_key(*ridx, e))).map(|x| x.len()).unwrap_or(0);
                 if n == 0 {
                     if submitted_before_stop || quiescent {
                         v.fail(
